@@ -14,6 +14,7 @@ import (
 type CompSpec struct {
 	ID   int    `json:"id"`
 	Kind string `json:"kind"`
+	Key  int    `json:"key,omitempty"` // identity of the Go type is (Kind, Key-1); 0 = use the id
 }
 
 // Payload is the heap object referenced by pointer-carrying components (C14).
@@ -178,8 +179,12 @@ type compInfo struct {
 	ptr   bool // carries pointers
 }
 
+var typeMu sync.Mutex
+
 // makeType creates a distinct Go type for component number n of the given kind.
 func makeType(kind string, n int) reflect.Type {
+	typeMu.Lock()
+	defer typeMu.Unlock()
 	tag := fmt.Sprintf("N%d", n)
 	f := func(name string, tp reflect.Type) reflect.StructField {
 		return reflect.StructField{Name: name + tag, Type: tp}
